@@ -25,7 +25,7 @@ namespace {
 enum { OP_FEED = 1, OP_MERGE = 2, OP_RESET = 3, OP_CHECKPOINT = 4, OP_MERGE_MOVE = 7 };
 Family* family_at(i64 idx) { auto& f = fam::families(); return f[static_cast<size_t>(idx) % f.size()]; }
 
-struct Record { int variant; Bytes img; std::string obs; };
+struct Record { int variant; Bytes img; std::string obs; std::string mem; };   // mem: what the public API of the in-memory object said when the image was written (not dumped)
 // peer records by run seed (loaded from DSIM_PEER_FILE)
 std::map<u64, std::vector<Record>>& peer() { static std::map<u64, std::vector<Record>> p; return p; }
 struct RefImage { std::string file, family; Bytes img; std::string obs; };
@@ -87,7 +87,7 @@ std::vector<Record> make_records(Family* f, const Plan& p, Ctx* ctx) {
     rnd.rng.seed(mix(p.run_seed, static_cast<u64>(idx))); idx++;
     if (s.kind == OP_CHECKPOINT) { int v = static_cast<int>(s.a) % f->n_variants(); if (!sk->variant_ok(v)) v = 0; Record r; r.variant = v;
       if (!sk->state_consistent()) { r.obs = "THROWS (object in a recorded inconsistent state, image not judged)"; out.push_back(std::move(r)); continue; }
-      r.img = sk->ser(v, 0);
+      r.img = sk->ser(v, 0); { std::unique_ptr<Sk> src(sk->image_source(v)); r.mem = src->obs(true); }
       // what the writing version itself sees when it reads the image back (not the in-memory source: a writer defect of the baseline is C09's business)
       try { ExactBuf eb(r.img.data(), r.img.size()); std::unique_ptr<Sk> back(sk->de(v, eb.p, eb.n)); r.obs = back->obs(false); } catch (const std::exception& e) { r.obs = std::string("THROWS ") + e.what(); }
       out.push_back(std::move(r)); }
@@ -133,6 +133,16 @@ struct C10World: World {
         }
         break;
       }
+#if defined(GROUP_QUANT)
+      // a reader written from the documented KLL layout (full preamble: k at bytes 4-5, n at 8-15, min_k at 16-17) recovers what the API reported
+      if (fam_name.rfind("kll", 0) == 0 && r.img.size() >= 20 && r.img[0] == 5 && !r.mem.empty()) {
+        auto field = [&](const char* key) { const size_t at = r.mem.find(key); if (at == std::string::npos) return std::string(); const size_t e = r.mem.find(' ', at); return r.mem.substr(at + std::strlen(key), e == std::string::npos ? std::string::npos : e - at - std::strlen(key)); };
+        const u64 k_img = load32le(r.img.data() + 4) & 0xffff, n_img = load64le(r.img.data() + 8), mink_img = load32le(r.img.data() + 16) & 0xffff;
+        const std::string nre_img = fam::d2s(datasketches::kll_sketch<float>::get_normalized_rank_error(static_cast<uint16_t>(mink_img), false)) + "/" + fam::d2s(datasketches::kll_sketch<float>::get_normalized_rank_error(static_cast<uint16_t>(mink_img), true));
+        if (field("k=") != std::to_string(k_img) || field("n=") != std::to_string(n_img) || (!field("nre=").empty() && field("nre=") != nre_img))
+          ctx.fail("C10|" + fam_name + "|v" + std::to_string(r.variant) + "|documented-fields-differ-from-what-the-api-reports", "image: k " + std::to_string(k_img) + " n " + std::to_string(n_img) + " min_k " + std::to_string(mink_img) + " (rank error " + nre_img + "); api: k " + field("k=") + " n " + field("n=") + " rank error " + field("nre="));
+        ctx.check(); ctx.probe("kll_documented_fields_checked"); }
+#endif
       ctx.t(fnv1a(r.img.data(), r.img.size())); ctx.t(r.obs);
     }
     if (peer_failed().count(p.run_seed)) { ctx.probe("peer_failed_to_execute_plan"); return; }
